@@ -14,6 +14,19 @@ Section R.
     forall k n t, get_node st k = Some n -> n_pass n = false -> n_out n = Some t ->
                   has_type u (emit_of emit st k) t = true.
 
+  (* decidable form, for concrete examples *)
+  Definition emit_okb (st : gstate) : bool :=
+    forallb (fun p => n_pass (snd p) ||
+                      match n_out (snd p) with
+                      | Some t => has_type u (emit_of emit st (fst p)) t
+                      | None => true
+                      end) (g_nodes st).
+  Lemma emit_okb_sound : forall st, emit_okb st = true -> emit_ok st.
+  Proof.
+    intros st H k n t G P O. unfold emit_okb in H. rewrite forallb_forall in H.
+    specialize (H (k, n) (nlist_get_In _ _ _ G)). simpl in H. rewrite P, O in H. exact H.
+  Qed.
+
   (* a compiled graph *)
   Definition compiled_ok (st : gstate) : Prop := inv u st /\ g_compiled st = true.
 
@@ -155,21 +168,21 @@ Section R.
       + apply memN_In in ME. destruct (TK _ ME) as [[t [Ht Ha]] _]. simpl in Ht, Ha.
         destruct (value_for kEND ws) as [|c] eqn:V; [split; discriminate|].
         unfold in_ty in Ht. simpl in Ht. inversion Ht; subst t.
-        rewrite assert_v0_non_nil, Ha. split; discriminate.
+        simpl in Ha. rewrite Ha. split; discriminate.
       + intros x Hx. apply in_map_iff in Hx. destruct Hx as [t [E Ht]]. subst x. simpl.
         destruct (TK t Ht) as [A [B|B]]; [auto|].
         exfalso. subst t. apply memN_In in Ht. congruence.
   Qed.
 
   Lemma collect_outs_ok : forall st tasks,
-    (forall x, In x tasks -> exists o, node_out u asrt emit st x = Some o /\ done_ok st (fst x, o) /\
+    (forall x, In x tasks -> exists o, node_out asrt emit st x = Some o /\ done_ok st (fst x, o) /\
                                        post_ok asrt st (fst x) (Some o) = true) ->
-    forallb (fun p => post_ok asrt st (fst (fst p)) (snd p)) (combine tasks (map (node_out u asrt emit st) tasks)) = true /\
-    exists l, collect_outs tasks (map (node_out u asrt emit st) tasks) = Some l /\ forall y, In y l -> done_ok st y.
+    forallb (fun p => post_ok asrt st (fst (fst p)) (snd p)) (combine tasks (map (node_out asrt emit st) tasks)) = true /\
+    exists l, collect_outs tasks (map (node_out asrt emit st) tasks) = Some l /\ forall y, In y l -> done_ok st y.
   Proof.
     intros st tasks. induction tasks as [|[k d] rest IH]; intros H; simpl.
     - split; [reflexivity|]. exists []. split; [reflexivity | intros y []].
-    - destruct (H (k, d) (or_introl eq_refl)) as [o [No [Do Po]]]. simpl in *.
+    - destruct (H (k, d) (or_introl eq_refl)) as [o [No [Do Po]]]. cbn [fst snd] in No, Do, Po.
       destruct (IH (fun x Hx => H x (or_intror Hx))) as [F [l [Cl Dl]]].
       rewrite No. rewrite Po, F. split; [reflexivity|].
       rewrite Cl. exists ((k, o) :: l). split; [reflexivity|].
@@ -184,7 +197,7 @@ Section R.
   Lemma exec_all_safe : forall st tasks,
     compiled_ok st -> emit_ok st ->
     (forall x, In x tasks -> task_ok st x /\ has_node st (fst x) = true) ->
-    exists done, exec_all u asrt emit st tasks = inr done /\ forall y, In y done -> done_ok st y.
+    exists done, exec_all asrt emit st tasks = inr done /\ forall y, In y done -> done_ok st y.
   Proof.
     intros st tasks [I C] EM HT. unfold exec_all.
     pose proof (inv_nodes _ _ I) as NO.
@@ -201,7 +214,7 @@ Section R.
       - subst t0. apply assert_any.
       - rewrite Ti in It. rewrite Pr in It. inversion It; subst. exact At. }
     rewrite F2; simpl.
-    assert (H3 : forall x, In x tasks -> exists o, node_out u asrt emit st x = Some o /\ done_ok st (fst x, o) /\
+    assert (H3 : forall x, In x tasks -> exists o, node_out asrt emit st x = Some o /\ done_ok st (fst x, o) /\
                                        post_ok asrt st (fst x) (Some o) = true).
     { intros [k d] Hx. destruct (HT _ Hx) as [[t [It At]] Hn]. simpl in *.
       unfold has_node in Hn. destruct (get_node st k) as [n|] eqn:G; [|discriminate].
@@ -211,12 +224,12 @@ Section R.
       destruct (n_pass n) eqn:Pn.
       - exists d. split; [reflexivity|]. split.
         + exists t. simpl. split; [rewrite To, <- (Pp eq_refl), <- Ti; exact It | apply has_type_assert; exact At].
-        + destruct (n_post n) as [t0|] eqn:Q; [|reflexivity]. specialize (Po t0 Q). simpl in Po. subst t0. apply assert_any.
+        + destruct (n_post n) as [t0|] eqn:Q; [|reflexivity]. specialize (Po t0 eq_refl). simpl in Po. subst t0. apply assert_any.
       - destruct (Pl eq_refl) as [ti [to [Hi Ho]]]. rewrite Hi.
         rewrite Ti, Hi in It. inversion It; subst t. rewrite At.
         exists (emit_of emit st k). split; [reflexivity|]. split.
         + exists to. simpl. split; [rewrite To; exact Ho | eapply EM; eauto].
-        + destruct (n_post n) as [t0|] eqn:Q; [|reflexivity]. specialize (Po t0 Q). simpl in Po.
+        + destruct (n_post n) as [t0|] eqn:Q; [|reflexivity]. specialize (Po t0 eq_refl). simpl in Po.
           apply assert_has_type. eapply EM; eauto. }
     destruct (collect_outs_ok st tasks H3) as [F3 [l [Cl Dl]]].
     rewrite F3; simpl. rewrite Cl. exists l. split; [reflexivity | exact Dl].
@@ -247,16 +260,4 @@ Section R.
     apply loop_safe; auto.
   Qed.
 
-  (* ---- the single-connection transfer function: converter (if any) then the consumer's
-     entry assertion.  Ok / ordinary error / panic. *)
-  Inductive tres : Type := TOk | TErr | TPanic.
-  Definition transfer (st : gstate) (s t : key) (d : dyn) : tres :=
-    if negb (conv_all asrt d (hedge_of st s t)) then TErr
-    else match in_ty st t with
-         | Some b => if asrt d b then TOk else TPanic
-         | None => TPanic
-         end.
-
-  Lemma hedge_types : forall st, inv u st -> forall s t b, In (s, t, b) (g_hedge st) -> True.
-  Proof. trivial. Qed.
 End R.
